@@ -109,14 +109,23 @@ pub fn run(ctx: &Ctx, rep: &mut Report) {
   let scratch = if ctx.scratch.is_empty() { "/tmp/verif-scratch".to_string() } else { ctx.scratch.clone() };
   for case in ctx.cases(u64::MAX) {
     let mut rng = ctx.rng(case);
-    let si = *rng.pick(&[3usize, 3, 10, 10, 5]);
+    // one case in five is the "uncommitted tail" scenario: no commit happens
+    // while dozens of pending blocks are indexed (no savepoint is due, commit
+    // interval 5000), and the branch switch lands in the middle of them
+    let tail_scenario = rng.chance(1, 5);
+    // (a savepoint, hence a commit, is due at every height below the interval
+    // and then every `interval` blocks: with 50 the heights 50..98 stay uncommitted)
+    let si = if tail_scenario { 50 } else { *rng.pick(&[3usize, 3, 10, 10, 5]) };
     let ms = *rng.pick(&[2usize, 2, 3, 1]);
-    let ci = *rng.pick(&[1usize, 2, 5000, 5000]);
+    let ci = if tail_scenario { 5000 } else { *rng.pick(&[1usize, 2, 5000, 5000]) };
     let feed = rng.below(3);
     let mut gencfg = GenCfg::default();
     gencfg.w_transfer = 5;
     gencfg.w_reveal = 3;
-    gencfg.w_rune = 3;
+    // the in-flight update of a mid-update switch often dies in the rune
+    // updater (it asks the node for a transaction of the abandoned branch);
+    // chains without rune transactions let it reach the reorg handling
+    gencfg.w_rune = if rng.chance(1, 2) { 3 } else { 0 };
     gencfg.max_txs = 3;
     let mut cfg = IndexCfg::all();
     cfg.commit_interval = Some(ci);
@@ -150,7 +159,7 @@ pub fn run(ctx: &Ctx, rep: &mut Report) {
     };
     let base_replay = ctx.replay_info(case);
     let params = format!("savepoint_interval={si} max_savepoints={ms} commit_interval={ci} feed={}", ["one-per-update", "batches", "all-at-once"][feed as usize]);
-    let h0 = rng.range(2, if ctx.thorough() { 70 } else { 45 }) as u32;
+    let h0 = if tail_scenario { rng.range(51, 58) as u32 } else { rng.range(2, if ctx.thorough() { 70 } else { 45 }) as u32 };
     if let Err(e) = grow(&mut w, &index, &mut rng, h0, feed) {
       rep.violation("C14/update-error-without-reorg", format!("{params}: {e}"), json!({"replay": base_replay}));
       continue;
@@ -167,13 +176,22 @@ pub fn run(ctx: &Ctx, rep: &mut Report) {
       if max_depth == 0 {
         break;
       }
-      let depth = match rng.below(4) {
+      let mut depth = match rng.below(4) {
         0 => 1,
         1 => rng.range(1, 3).min(u64::from(max_depth)) as u32,
         _ => rng.range(1, u64::from(max_depth)) as u32,
       };
       let extra = rng.range(1, 3) as u32;
-      let mid_update = rng.chance(1, 4);
+      let mid_update = tail_scenario || rng.chance(1, 4);
+      // half of the time more blocks are pending than the prefetch channel
+      // holds (32), so that the fetcher is still at work when the switch
+      // lands and hands the updater a block of the other branch on top of
+      // uncommitted blocks of the old one; and half of those fork *inside*
+      // the pending tail (nothing committed is abandoned)
+      let long_tail = tail_scenario || (mid_update && rng.chance(1, 2));
+      if long_tail && rng.chance(if tail_scenario { 2 } else { 1 }, if tail_scenario { 3 } else { 2 }) {
+        depth = 0;
+      }
       absorb(&hooks.trace(), &mut retained);
       let savepoints_before = retained.clone();
       let pre_dump = masked_dump(&index).ok();
@@ -189,7 +207,7 @@ pub fn run(ctx: &Ctx, rep: &mut Report) {
       if mid_update {
         // a few more blocks on the old branch are pending; while they are
         // being indexed the node switches to the other branch
-        let pending = rng.range(2, 5) as u32;
+        let pending = if tail_scenario { rng.range(36, 40) as u32 } else if long_tail { rng.range(36, 60) as u32 } else { rng.range(2, 5) as u32 };
         {
           let mut node = w.node.lock().unwrap();
           extend(&mut rng, &mut node, &mut w.model, &mut w.bgen, pending);
@@ -214,7 +232,13 @@ pub fn run(ctx: &Ctx, rep: &mut Report) {
         }
         let node_for_action = w.node.clone();
         let drop_n = depth + pending;
-        let nth = rng.range(1, u64::from(pending));
+        let nth = if long_tail { rng.range(1, u64::from(pending) - 34) } else { rng.range(1, u64::from(pending)) };
+        if long_tail {
+          rep.count("reorgs_during_update_with_fetcher_still_running");
+          if depth == 0 {
+            rep.count("reorgs_inside_the_uncommitted_tail");
+          }
+        }
         hooks.configure(|st| {
           st.action_at = Some((
             "update.block_indexed".to_string(),
